@@ -35,3 +35,15 @@ package localcachedmap
 //@   ensures[key-buffer-reset] len(lm.keyBuffer) == 0
 //@   ensures[returns-the-entry-of-that-key] has(lm.localMap, lastmk) && lm.localMap[lastmk] == result
 //@   ensures[existing-entry-is-reused] old(has(lm.localMap, now(lastmk))) ==> result == old(lm.localMap[now(lastmk)])
+
+// ==== shutdown (C05 C17 C03): Destroy returns only after every worker created through the map has reported its end - it
+// waits for the object counter itself, without a time limit. A reload starts the new pipelines (which scan the queue
+// directories once) after the old orchestrator's Shutdown has returned: returning earlier leaves the old backlog behind the
+// new records.
+//@ func (gm *GlobalCachedMap[G, L]) Destroy()
+//@   property C05 C17 C03
+//@   flag nosafety noinfer counted
+//@   requires gm != nil
+//@   modifies everything, ncalls("sync.WaitGroup.Wait")
+//@   ensures[returns-only-after-every-worker-has-ended] ncalls("sync.WaitGroup.Wait") == old(ncalls("sync.WaitGroup.Wait")) + 1
+
